@@ -357,12 +357,22 @@ class Ops(ExecBase):
 
     def make_size(self, st, v, pos):
         v = simp_int(v)
+        lim = st.ghost.get('alloc_limit')
         if isinstance(v, int):
             if v < 0:
                 raise GoPanic('makeslice-len', None, pos)
+            if lim is not None and v > lim:
+                raise GoPanic('alloc-above-limit', None, pos)
             return v
         if not self.branch(st, v >= 0):
             raise GoPanic('makeslice-len', None, pos)
+        if lim is not None and not self.branch(st, v <= lim):
+            # steer the witness to a size the Go runtime itself rejects, so that the native replay panics
+            r, m = self.check(v >= (1 << 62), st)
+            if r == 'sat':
+                self.add_constraint(st, v >= (1 << 62))
+                st.model = m
+            raise GoPanic('alloc-above-limit', None, pos)
         return self.concretize(st, v, 64, limit=self.opts.get('max_split', 64), what='make size')
 
     def op_MakeMap(self, st, f, ins):
